@@ -436,7 +436,8 @@ def h9(ctx):
     crate = ctx.lib()
     n = 0
     for b in crate.fns():
-        tup = [b.var_names.get(l) for l in range(1, b.argc + 1) if b.local_ty(l).replace("&", "").strip() in ("(L, slotmap::SlotMap)",)]
+        # (a parameter destructured in the signature — `(sh, bij): (L, SlotMap)` — has no name: roles call it `_<index>`)
+        tup = [b.var_names.get(l) or "_%d" % l for l in range(1, b.argc + 1) if b.local_ty(l).replace("&", "").strip() in ("(L, slotmap::SlotMap)",)]
         if not tup:
             continue
         for c in b.calls:
